@@ -132,12 +132,12 @@ class FixedWindowCandidates:
             self.tracker_queue.append(current_instances)
             add_to_queue = False
 
-            # Create new tracks for instances with unassigned tracks from track matching
-            new_current_instances_inds = [
-                x for x in range(len(current_instances.features)) if x not in row_inds
-            ]
-            if new_current_instances_inds:
-                current_instances = self.add_new_tracks(
-                    current_instances, add_to_queue=add_to_queue
-                )
+        # Create new tracks for instances with unassigned tracks from track matching
+        new_current_instances_inds = [
+            x for x in range(len(current_instances.features)) if x not in row_inds
+        ]
+        if new_current_instances_inds:
+            current_instances = self.add_new_tracks(
+                current_instances, add_to_queue=add_to_queue
+            )
         return current_instances
